@@ -482,20 +482,25 @@ fn repo_source_hash() -> u64 {
     h
 }
 
-fn build_proxy_bin() -> Result<String, String> {
+/// Build `server_proxy` from /repo's working tree and return a *private copy* of the binary.
+/// Clean + build + copy run under one `flock`: another C16 run (or a change of /repo) may clean and rebuild
+/// the shared target directory at any time, and a run in progress must keep the binary it started with.
+fn build_proxy_bin(out_dir: &std::path::Path) -> Result<String, String> {
     let target = "/verif/.build/target-repo";
+    let _ = std::fs::create_dir_all(target);
     let stamp = format!("{}/server_proxy.srchash", target);
     let want = format!("{:016x}", repo_source_hash());
-    if std::fs::read_to_string(&stamp).map(|t| t.trim() != want).unwrap_or(true) {
-        // the binary on disk was not (provably) built from these sources: rebuild the crate itself
-        let _ = std::fs::remove_file(&stamp);
-        let _ = Proc::new("cargo").args(["clean", "--release", "--offline", "--manifest-path", "/repo/Cargo.toml", "-p", "undermoon",
-            "--target-dir", target]).current_dir("/verif/harness").output();
-    }
-    let out = Proc::new("cargo")
-        .args(["build", "--release", "--offline", "--manifest-path", "/repo/Cargo.toml", "--bin", "server_proxy",
-               "--target-dir", target])
-        .current_dir("/verif/harness")
+    let dest = out_dir.join(format!("server_proxy.{}", std::process::id()));
+    let script = format!(
+        "set -e; cd /verif/harness; \
+         if [ \"$(cat {stamp} 2>/dev/null)\" != \"{want}\" ]; then rm -f {stamp}; \
+           cargo clean --release --offline --manifest-path /repo/Cargo.toml -p undermoon --target-dir {target} >/dev/null 2>&1 || true; fi; \
+         cargo build --release --offline --manifest-path /repo/Cargo.toml --bin server_proxy --target-dir {target}; \
+         echo {want} > {stamp}; cp -f {target}/release/server_proxy {dest}",
+        stamp = stamp, want = want, target = target, dest = dest.display());
+    let out = Proc::new("flock")
+        .arg(format!("{}.lock", target))
+        .arg("sh").arg("-c").arg(&script)
         .env("RUSTFLAGS", "--cfg undermoon_verif --check-cfg cfg(undermoon_verif) -Awarnings")
         .env("CARGO_PROFILE_RELEASE_LTO", "false")
         .env("CARGO_PROFILE_RELEASE_DEBUG", "false")
@@ -503,13 +508,12 @@ fn build_proxy_bin() -> Result<String, String> {
         .env("CARGO_PROFILE_RELEASE_OPT_LEVEL", "2")
         .env("CARGO_NET_OFFLINE", "true")
         .output()
-        .map_err(|e| format!("cargo: {}", e))?;
-    if !out.status.success() {
+        .map_err(|e| format!("flock/cargo: {}", e))?;
+    if !out.status.success() || !dest.exists() {
         let e = String::from_utf8_lossy(&out.stderr);
         return Err(format!("building server_proxy failed: {}", &e[e.len().saturating_sub(600)..]));
     }
-    let _ = std::fs::write(&stamp, &want);
-    Ok(format!("{}/release/server_proxy", target))
+    Ok(dest.to_string_lossy().to_string())
 }
 
 /// The children must not outlive this process even if it is killed (vcheck kills a harness that
@@ -572,11 +576,16 @@ fn spawn_proxy(bin: &str, tmp: &std::path::Path, ar: bool) -> Proxy {
             return Proxy { child, port, base_rss, bytes_sent: 0, stderr_path, stderr_seen: 0 };
         }
         let _ = child.kill();
-        let _ = child.wait();
+        let status = child.wait().map(|s| format!("{:?}", s)).unwrap_or_default();
+        let why = std::fs::read_to_string(&stderr_path).unwrap_or_default();
         let _ = std::fs::remove_file(&stderr_path);
-        eprintln!("server_proxy did not come up (attempt {})", attempt);
+        eprintln!("server_proxy did not come up (attempt {}, binary {} exists: {}, status {}): {}", attempt, bin,
+            std::path::Path::new(bin).exists(), status, why.chars().take(300).collect::<String>());
+        std::thread::sleep(Duration::from_millis(500 * (attempt as u64 + 1)));
     }
-    panic!("cannot start server_proxy");
+    // not a finding about the proxy: the harness cannot do its work
+    eprintln!("umh_hostile: cannot start server_proxy; giving up (harness environment problem, not an observation)");
+    std::process::exit(4);
 }
 
 impl Proxy {
@@ -1809,7 +1818,7 @@ fn child_stream(args: &Args, rng: &mut Rng) {
     let mut st = Streams::new(args);
     let bin = match args.extra.get("proxy-bin") {
         Some(b) if !b.is_empty() => b.clone(),
-        _ => match build_proxy_bin() {
+        _ => match build_proxy_bin(&args.out) {
             Ok(b) => b,
             Err(e) => { eprintln!("{}", e); std::process::exit(3); }
         },
@@ -1989,6 +1998,8 @@ fn finish_child(mut st: Streams, mut cx: ChildCtx) {
     st.stats.extra.insert("still_served_at_end".into(), json!(cx.proxy.served()));
     st.stats.extra.insert("active_redirection".into(), json!(cx.ar));
     let _ = cx.proxy.child.kill();
+    // the private copy of the binary made by `build_proxy_bin`
+    if cx.bin.contains(&format!("server_proxy.{}", std::process::id())) { let _ = std::fs::remove_file(&cx.bin); }
     st.finish("hostile-child", RULE_CHILD);
 }
 
